@@ -1349,7 +1349,7 @@ class SQLModel:
             for k in using
             if k not in drop_columns_node.column_deletions
         }
-        if (len(new_terms) < 1) and (len(subsql.terms) > 0):
+        if (len(new_terms) < 1) and (subsql.terms is not None) and (len(subsql.terms) > 0):
             # never narrow a step to no terms at all (see select_columns_to_near_sql)
             k0 = next(iter(subsql.terms.keys()))
             new_terms = {k0: subsql.terms[k0]}
